@@ -17,8 +17,11 @@ import (
 // periodically persist every 20ms
 // If storage in confirm-mode - in every persisted message storage send confirm to vhost
 type MsgStorage struct {
-	db            interfaces.DbStorage
-	persistLock   deadlock.Mutex
+	db          interfaces.DbStorage
+	persistLock deadlock.Mutex
+	// held for the whole of a persist and of a purge: a purge never runs between the snapshot of the pending
+	// operations and their batch
+	flushLock     deadlock.Mutex
 	add           map[string]*amqp.Message
 	update        map[string]*amqp.Message
 	del           map[string]*amqp.Message
@@ -77,6 +80,8 @@ func (storage *MsgStorage) getQueueLen() int {
 func (storage *MsgStorage) persist() {
 	verifhook.Enter("store.persist")
 	defer verifhook.Exit("store.persist")
+	storage.flushLock.Lock()
+	defer storage.flushLock.Unlock()
 	storage.persistLock.Lock()
 	add := storage.add
 	del := storage.del
@@ -245,6 +250,25 @@ func (storage *MsgStorage) GetQueueLength(queue string) uint64 {
 
 // PurgeQueue delete messages
 func (storage *MsgStorage) PurgeQueue(queue string) {
+	// not while a batch is on its way to the db: it would write purged messages back
+	storage.flushLock.Lock()
+	defer storage.flushLock.Unlock()
+
+	// what still waits for the next persist is purged as well: a pending add is cancelled by a delete of the same
+	// key (persist then confirms it to its publisher without writing it), a pending update is dropped
+	storage.persistLock.Lock()
+	for key, message := range storage.add {
+		if key == makeKey(message.ID, queue) {
+			storage.del[key] = message
+		}
+	}
+	for key, message := range storage.update {
+		if key == makeKey(message.ID, queue) {
+			delete(storage.update, key)
+		}
+	}
+	storage.persistLock.Unlock()
+
 	prefix := []byte("msg." + queue + ".")
 	storage.db.DeleteByPrefix(prefix)
 }
